@@ -401,6 +401,30 @@ func (w *world) pairSetup(cn, ctrl, variant string) string {
 			s2 := &setupRun{cc: cc}
 			w.setups[cn] = s2
 		}
+	case "aNforged", "a0forged", "aemptyforged":
+		// invalid SRP public key with a proof computed over the EMPTY session key (what a server that ignores the
+		// rejection would hold), then a key exchange sealed under HKDF(empty secret) and signed accordingly
+		A := map[string][]byte{"aNforged": srpN.Bytes(), "a0forged": {0}, "aemptyforged": {}}[variant]
+		if step(s.m1()) {
+			s.srp = srpCompute(w.code(), s.salt, s.B)
+			B := new(big.Int).SetBytes(s.B)
+			hn := new(big.Int).SetBytes(h512(srpN.Bytes()))
+			hg := new(big.Int).SetBytes(h512(srpG.Bytes()))
+			forged := h512(new(big.Int).Xor(hn, hg).Bytes(), h512([]byte("Pair-Setup")), s.salt, new(big.Int).SetBytes(A).Bytes(), B.Bytes(), []byte{})
+			m, st, err := s.post([]tlvItem{{tState, []byte{3}}, {tPub, A}, {tProof, forged}})
+			step(m, st, err)
+			step(s.m5(hk([]byte{}, "Pair-Setup-Encrypt-Salt", "Pair-Setup-Encrypt-Info"), []byte{}, id, id.priv, ""))
+		}
+	case "wrongcodezero":
+		// wrong-code proof (answered error 2), then a key exchange under the all-zero key signed over an empty secret
+		if step(s.m1()) {
+			step(s.m3("999-99-999", nil, false, false))
+			step(s.m5(zero, []byte{}, id, id.priv, ""))
+		}
+	case "m5zeroempty":
+		step(s.m5(zero, []byte{}, id, id.priv, ""))
+	case "m5emptyhkdf":
+		step(s.m5(hk([]byte{}, "Pair-Setup-Encrypt-Salt", "Pair-Setup-Encrypt-Info"), []byte{}, id, id.priv, ""))
 	case "m5first":
 		s.srp = &srpClient{K: []byte{}}
 		step(s.m5(zero, []byte{}, id, id.priv, ""))
@@ -628,7 +652,11 @@ func (w *world) httpOp(p []string) string {
 		} else if p[3] == "list" {
 			method = 5
 		}
-		body := tlvEncode([]tlvItem{{tState, []byte{1}}, {tMethod, []byte{method}}, {tName, []byte(id.name)}, {tPub, id.pub}, {tPerm, []byte{1}}})
+		items := []tlvItem{{tState, []byte{1}}, {tMethod, []byte{method}}, {tName, []byte(id.name)}, {tPub, id.pub}, {tPerm, []byte{1}}}
+		if p[3] == "addnokey" {
+			items = []tlvItem{{tState, []byte{1}}, {tMethod, []byte{3}}, {tName, []byte(id.name)}, {tPerm, []byte{1}}}
+		}
+		body := tlvEncode(items)
 		r, e := do("POST", "/pairings", tlvCT, body)
 		if e != "" {
 			return "R=" + e
